@@ -303,6 +303,25 @@ fn gen_adversarial(p: &mut Prng, arch: Arch) -> Hist {
     Hist { ops }
 }
 
+/// C06 for any engine: the same call against a fresh cache must give the same result and
+/// registers as the call that went through the engine's (warm) cache.
+pub fn fresh_cache_twin<H: ArchH>(rep: &mut Report, w: &World<H>, op: &Op, ans: &str, case: impl FnOnce() -> String) {
+    if let Op::Unwind { u, is_ra, addr, regs, mem, .. } = op {
+        let Some(unw) = w.unws.get(u) else { return };
+        let mut fresh = H::new_cache();
+        let (r2, _) = World::<H>::unwind_once(unw, &mut fresh, *is_ra, *addr, regs, mem);
+        let twin = match &r2 {
+            Ok((res, after)) => format!("{} {}", show_res(res), after.show()),
+            Err(_) => "panic".into(),
+        };
+        let got: String = ans.split(' ').filter(|t| !t.starts_with("stats=") && !t.starts_with("t=")).collect::<Vec<_>>().join(" ");
+        rep.count("fresh-cache twins outside hist");
+        if twin != got {
+            add_oracle(rep, &["C06"], "cache-changes-outcome", format!("outcome with the shared cache differs from a fresh cache: fresh={twin}"), case(), &got);
+        }
+    }
+}
+
 fn add_oracle(rep: &mut Report, props: &[&str], key: &str, what: String, case: String, impl_out: &str) {
     rep.add_finding(Finding {
         props: props.iter().map(|s| s.to_string()).collect(),
@@ -339,10 +358,16 @@ fn uncovered_leaf_expectation<H: ArchH>(w: &World<H>, u: &str, pc: u64, regs: &R
     if *pres != Pres::Hdr && fdes.iter().any(|f| f.start < m.base_svma || f.start - m.base_svma > u32::MAX as u64) {
         return None;
     }
-    Some(match regs {
+    Some(leaf_outcome(regs, mem))
+}
+
+/// What treating the frame as a frameless leaf gives: the return address is the word at rsp
+/// (x86-64, which is popped) / the link register (arm64).
+pub fn leaf_outcome(regs: &RegsAny, mem: &crate::mem::MemDesc) -> String {
+    match regs {
         RegsAny::X(r) => {
             let sp = r.sp();
-            let Some(new_sp) = sp.checked_add(8) else { return Some(format!("err:ovf {}", regs.show())) };
+            let Some(new_sp) = sp.checked_add(8) else { return format!("err:ovf {}", regs.show()) };
             match mem.read(sp) {
                 Err(()) => format!("err:stack:{} {}", hex(sp), regs.show()),
                 Ok(0) => format!("done {}", regs.show()),
@@ -364,7 +389,7 @@ fn uncovered_leaf_expectation<H: ArchH>(w: &World<H>, u: &str, pc: u64, regs: &R
                 format!("frame:{} {}", hex(ra), RegsAny::A(after).show())
             }
         }
-    })
+    }
 }
 
 fn context_of(lines: &[String], upto: usize) -> String {
